@@ -6,6 +6,11 @@ pub mod c06;
 pub mod c07;
 pub mod c08;
 pub mod c10;
+pub mod c12;
+pub mod c13;
+pub mod c14;
+pub mod c15;
+pub mod c18;
 
 use crate::engine::{CheckReport, RunCfg};
 use serde_json::Value;
@@ -28,6 +33,11 @@ pub fn registry() -> Vec<PropEntry> {
         PropEntry { id: "C09", run: cap::c09_run, replay: cap::c09_replay },
         PropEntry { id: "C10", run: c10::run, replay: c10::replay },
         PropEntry { id: "C11", run: cap::c11_run, replay: cap::c11_replay },
+        PropEntry { id: "C12", run: c12::run, replay: c12::replay },
+        PropEntry { id: "C13", run: c13::run, replay: c13::replay },
+        PropEntry { id: "C14", run: c14::run, replay: c14::replay },
+        PropEntry { id: "C15", run: c15::run, replay: c15::replay },
         PropEntry { id: "C17", run: text::c17_run, replay: text::c17_replay },
+        PropEntry { id: "C18", run: c18::run, replay: c18::replay },
     ]
 }
